@@ -397,29 +397,238 @@ Theorem align_fresh pres m n old s :
   In (n, old, s) (align pres m) ->
   ~ In s (imported m) /\ ~ In s (defined_names m) /\ ~ In s (map m_name (mentions m))
   /\ ~ In s BUILTINS /\ ~ In s KEYWORDS.
-Proof. apply decide_fresh. Qed.
+Proof.
+  unfold align. exact (decide_fresh (imported m) (defined_names m) (mentions m) (group_events (all_events pres m)) pres n old s).
+Qed.
 
 Theorem align_injective pres m n1 old1 n2 old2 s :
   In (n1, old1, s) (align pres m) -> In (n2, old2, s) (align pres m) -> old1 = old2.
-Proof. apply decide_injective. Qed.
+Proof.
+  unfold align. exact (decide_injective (imported m) (defined_names m) (mentions m) (group_events (all_events pres m)) pres n1 old1 n2 old2 s).
+Qed.
 
 Theorem align_consistent pres m n' x s mm :
   wf_modl m = true ->
   In (n', x, s) (align pres m) -> In mm (mentions m) -> m_name mm = x ->
   exists n, m_node mm = Some n /\ In (n, x, s) (align pres m).
-Proof. intros Hwf. apply decide_consistent. now apply align_wf. Qed.
+Proof.
+  intros Hwf. unfold align.
+  exact (decide_consistent (imported m) (defined_names m) (mentions m) (group_events (all_events pres m)) pres (align_wf pres m Hwf) n' x s mm).
+Qed.
 
 Theorem align_alpha pres m m1 m2 :
   wf_modl m = true -> In m1 (mentions m) -> In m2 (mentions m) ->
   (mention_sub (align pres m) m1 = mention_sub (align pres m) m2 <-> m_name m1 = m_name m2).
-Proof. intros Hwf. apply decide_alpha. now apply align_wf. Qed.
+Proof.
+  intros Hwf. unfold align.
+  exact (decide_alpha (imported m) (defined_names m) (mentions m) (group_events (all_events pres m)) pres (align_wf pres m Hwf) m1 m2).
+Qed.
 
 Theorem align_respects_preserve pres m n old s : In (n, old, s) (align pres m) -> ~ In old pres /\ old <> s.
-Proof. intros H. apply decide_In in H. tauto. Qed.
+Proof.
+  unfold align. intros H.
+  apply (decide_In (imported m) (defined_names m) (mentions m) (group_events (all_events pres m)) pres n old s) in H. tauto.
+Qed.
 
 (* every renamed node carries the identifier it is recorded with *)
 Theorem align_entries_named pres m n old s : In (n, old, s) (align pres m) -> names m n old.
 Proof.
-  intros H. apply decide_In in H as (H & _). apply step1_In in H as (_ & c & Hc & <- & <- & _).
+  unfold align. intros H.
+  apply (decide_In (imported m) (defined_names m) (mentions m) (group_events (all_events pres m)) pres n old s) in H as (H & _).
+  apply step1_In in H as (_ & c & Hc & <- & <- & _).
   destruct (group_events_spec (names m) (all_events pres m) (all_events_names pres m)) as [_ Hold]. now apply Hold.
 Qed.
+
+(* ---------------------------------------------------------------------------------------- *)
+(* T19.6' use-site discovery (_get_uses_of) *)
+
+Theorem uses_of_sound sc t m o :
+  In o (uses_of sc t m) ->
+  In o (occs m) /\ o_name o = t_name t /\ in_scope sc (o_scopes o) = true
+  /\ (o_aug o = true \/ o_ctx o = Load).
+Proof.
+  unfold uses_of. intros H. apply filter_In in H as [Hin H].
+  apply andb_true_iff in H as [H _]. apply andb_true_iff in H as [H Hk]. apply andb_true_iff in H as [Hs Hn].
+  repeat split; [exact Hin|now apply text_eqb_eq|exact Hs|].
+  apply orb_true_iff in Hk as [Hk|Hk]; [now left|right].
+  apply andb_true_iff in Hk as [Hl _]. unfold is_load in Hl. now destruct (o_ctx o).
+Qed.
+
+(* reference semantics (definition, partial): a function "binds" the name when the name is one of its
+   parameters or is stored somewhere inside it; a load inside such a function belongs to that function
+   (or to something nested in it), not to the outer binding that is being renamed *)
+Definition inner_binder (sc : nat) (t : target) (m : modl) (o : occ) (F : defn) : bool :=
+  match d_kind F with
+  | KClass => false
+  | KFunc =>
+      (Nat.eqb (d_scope F) sc || in_scope sc (d_scopes F))
+      && negb (existsb (Nat.eqb (d_scope F)) (t_within t))
+      && existsb (Nat.eqb (d_scope F)) (o_scopes o)
+      && (mem (t_name t) (d_params F)
+          || existsb (fun s => is_store s && text_eqb (o_name s) (t_name t)
+                               && existsb (Nat.eqb (d_scope F)) (o_scopes s)) (occs m))
+  end.
+Definition refers_outer (sc : nat) (t : target) (m : modl) (o : occ) : bool :=
+  negb (existsb (inner_binder sc t m o) (defs m)).
+
+(* refuted: a load that belongs to a local variable of a nested function is selected
+     myVar = 1
+     def f():
+         myVar = 2
+         print(myVar)        <- selected as a use of the module-level myVar                     *)
+Definition shadow_module : modl :=
+  let mv := [109; 121; 86; 97; 114]%N in
+  Modl [Occ 0 mv Store false (1, 0)%Z (1, 5)%Z [] true false;
+        Occ 1 mv Store false (3, 4)%Z (3, 9)%Z [1%nat] true false;
+        Occ 2 [112; 114; 105; 110; 116]%N Load false (4, 4)%Z (4, 9)%Z [1%nat] false false;
+        Occ 3 mv Load false (4, 10)%Z (4, 15)%Z [1%nat] false false]
+       [Defn 4 1 KFunc [102]%N (2, 16)%Z (2, 17)%Z [] [] false true] [] [] [].
+
+Theorem uses_of_refuted :
+  exists sc t m o, In o (uses_of sc t m) /\ is_load o = true /\ refers_outer sc t m o = false.
+Proof.
+  exists 0%nat, (Target [109; 121; 86; 97; 114]%N (1, 0)%Z (1, 5)%Z []), shadow_module,
+         (Occ 3 [109; 121; 86; 97; 114]%N Load false (4, 10)%Z (4, 15)%Z [1%nat] false false).
+  vm_compute. repeat split. now left.
+Qed.
+
+(* guard: no function of the scope (other than those around the node) stores the name *)
+Definition no_inner_store (sc : nat) (t : target) (m : modl) : bool :=
+  forallb (fun s => negb (is_store s && text_eqb (o_name s) (t_name t)
+                          && existsb (fun F => match d_kind F with
+                                               | KClass => false
+                                               | KFunc => (Nat.eqb (d_scope F) sc || in_scope sc (d_scopes F))
+                                                          && negb (existsb (Nat.eqb (d_scope F)) (t_within t))
+                                                          && existsb (Nat.eqb (d_scope F)) (o_scopes s)
+                                               end) (defs m))) (occs m).
+
+Lemma existsb_ext_in {A} (f g : A -> bool) l : (forall x, In x l -> f x = g x) -> existsb f l = existsb g l.
+Proof. induction l as [|a l IH]; cbn; intros H; [reflexivity|]. rewrite (H a (or_introl eq_refl)), IH; auto. Qed.
+
+Theorem uses_of_partial sc t m o :
+  no_inner_store sc t m = true ->
+  In o (occs m) -> is_load o = true -> o_aug o = false ->
+  (In o (uses_of sc t m) <->
+     in_scope sc (o_scopes o) = true /\ o_name o = t_name t /\ refers_outer sc t m o = true
+     /\ (pos_lt (t_end t) (o_start o) || (unordered sc (defs m) && pos_lt (o_end o) (t_start t))) = true).
+Proof.
+  intros Hg Ho Hl Ha.
+  assert (Eb : blacklisted sc t (defs m) o = existsb (inner_binder sc t m o) (defs m)).
+  { unfold blacklisted. apply existsb_ext_in. intros F HF. unfold inner_binder. destruct (d_kind F) eqn:Ek; [|reflexivity].
+    destruct ((Nat.eqb (d_scope F) sc || in_scope sc (d_scopes F))
+              && negb (existsb (Nat.eqb (d_scope F)) (t_within t))
+              && existsb (Nat.eqb (d_scope F)) (o_scopes o)) eqn:E1; [|reflexivity].
+    cbn [andb]. f_equal.
+    assert (Hlo : match o_ctx o with Store => true | _ => false end = false)
+      by (unfold is_load in Hl; now destruct (o_ctx o)).
+    rewrite Hlo. cbn [andb]. symmetry. apply not_true_is_false. intros Hex.
+    apply existsb_exists in Hex as (s & Hs & Hex).
+    apply andb_true_iff in Hex as [Hex Hin]. apply andb_true_iff in Hex as [Hst Hnm].
+    unfold no_inner_store in Hg. rewrite forallb_forall in Hg. specialize (Hg s Hs).
+    apply negb_true_iff in Hg. rewrite Hst, Hnm in Hg. cbn [andb] in Hg.
+    assert (Hx : existsb (fun F0 => match d_kind F0 with
+                                    | KClass => false
+                                    | KFunc => (Nat.eqb (d_scope F0) sc || in_scope sc (d_scopes F0))
+                                               && negb (existsb (Nat.eqb (d_scope F0)) (t_within t))
+                                               && existsb (Nat.eqb (d_scope F0)) (o_scopes s)
+                                    end) (defs m) = true).
+    { apply existsb_exists. exists F. split; [exact HF|]. rewrite Ek.
+      apply andb_true_iff in E1 as [E1 _]. now rewrite E1, Hin. }
+    congruence. }
+  unfold uses_of, refers_outer. rewrite filter_In, Ha, Hl, Eb. cbn [orb andb].
+  rewrite !andb_true_iff, text_eqb_eq. tauto.
+Qed.
+
+Example uses_of_partial_example :
+  (* in shadow_module the function name f is a target with no inner store: print(f) would be found *)
+  no_inner_store 0 (Target [102]%N (2, 16)%Z (2, 17)%Z [1%nat]) shadow_module = true.
+Proof. reflexivity. Qed.
+
+(* ---------------------------------------------------------------------------------------- *)
+(* Part C: generated names *)
+
+Fixpoint nodup_text (l : list ident) : bool :=
+  match l with [] => true | x :: t => negb (mem x t) && nodup_text t end.
+Lemma nodup_text_NoDup l : nodup_text l = true -> NoDup l.
+Proof.
+  induction l as [|x t IH]; cbn; [constructor|]. intros H. apply andb_true_iff in H as [H1 H2].
+  constructor; [|now apply IH]. apply negb_true_iff in H1. now apply mem_false_not_In.
+Qed.
+
+Lemma NoDup_filter {A} (f : A -> bool) l : NoDup l -> NoDup (filter f l).
+Proof.
+  induction l as [|x t IH]; cbn; intros H; [constructor|]. apply NoDup_cons_iff in H as [Hn H].
+  destruct (f x); [|now apply IH]. constructor; [|now apply IH]. intros Hin. apply filter_In in Hin. tauto.
+Qed.
+
+Lemma loop_candidates_NoDup : NoDup loop_candidates.
+Proof. apply nodup_text_NoDup. vm_compute. reflexivity. Qed.
+
+(* T19.7: every generated loop-variable name is unused, the names are pairwise different and are
+   one or two lower-case letters *)
+Theorem loop_names_fresh used n : In n (loop_names used) -> ~ In n used.
+Proof. unfold loop_names. intros H. apply filter_In in H as [_ H]. apply negb_true_iff in H. now apply mem_false_not_In. Qed.
+
+Theorem loop_names_NoDup used : NoDup (loop_names used).
+Proof. apply NoDup_filter, loop_candidates_NoDup. Qed.
+
+Theorem loop_names_shape used n :
+  In n (loop_names used) -> n <> [] /\ forallb is_lower n = true /\ (length n <= 2)%nat.
+Proof.
+  unfold loop_names. intros H. apply filter_In in H as [H _].
+  assert (Hall : forallb (fun n => negb (match n with [] => true | _ => false end) && forallb is_lower n
+                                   && Nat.leb (length n) 2) loop_candidates = true) by (vm_compute; reflexivity).
+  rewrite forallb_forall in Hall. specialize (Hall _ H).
+  apply andb_true_iff in Hall as [Hall H3]. apply andb_true_iff in Hall as [H1 H2].
+  repeat split; [now destruct n|exact H2|now apply Nat.leb_le].
+Qed.
+
+(* ... but a generated name can be a keyword: with a..z and aa..ar in use the first free name is "as" *)
+Theorem loop_names_keyword_refuted :
+  exists used n, hd_error (loop_names used) = Some n /\ In n KEYWORDS.
+Proof.
+  exists (firstn 44 loop_candidates), [97; 115]%N. split; [vm_compute; reflexivity|].
+  apply mem_In. vm_compute. reflexivity.
+Qed.
+
+Theorem loop_names_keyword_partial used n :
+  (length (filter (fun c => negb (mem c used)) (firstn 44 loop_candidates)) >= 1)%nat ->
+  hd_error (loop_names used) = Some n -> ~ In n KEYWORDS.
+Proof.
+  (* if one of the first 44 candidates (a..z, aa..ar) is free, the first free name is among them,
+     and none of those is a keyword *)
+  unfold loop_names. intros Hlen Hhd.
+  assert (Es : loop_candidates = firstn 44 loop_candidates ++ skipn 44 loop_candidates) by (symmetry; apply firstn_skipn).
+  rewrite Es, filter_app in Hhd.
+  destruct (filter (fun c => negb (mem c used)) (firstn 44 loop_candidates)) as [|x t] eqn:Ef; [cbn in Hlen; lia|].
+  cbn in Hhd. injection Hhd as <-.
+  assert (Hin : In x (firstn 44 loop_candidates)).
+  { assert (In x (x :: t)) by now left. rewrite <- Ef in H. now apply filter_In in H as [H _]. }
+  assert (Hall : forallb (fun c => negb (mem c KEYWORDS)) (firstn 44 loop_candidates) = true) by (vm_compute; reflexivity).
+  rewrite forallb_forall in Hall. specialize (Hall _ Hin). apply negb_true_iff in Hall. now apply mem_false_not_In.
+Qed.
+
+(* overused_constant: the index that is picked is free ... *)
+Theorem pick_index_free bl i : pick_index bl = Some i -> ~ In (overused_name i) bl.
+Proof.
+  unfold pick_index. destruct (mem (overused_name (pick_fuel 11 0 bl)) bl) eqn:E; [discriminate|].
+  intros [= <-]. now apply mem_false_not_In.
+Qed.
+(* ... but the following names are not checked *)
+Definition OC1 : ident := overused_name 1.
+Theorem overused_names_refuted : exists bl k n, In n (overused_names bl k) /\ In n bl.
+Proof. exists [OC1], 2%nat, OC1. split; [vm_compute; tauto|now left]. Qed.
+Theorem overused_names_partial bl n : In n (overused_names bl 1) -> ~ In n bl.
+Proof.
+  unfold overused_names. destruct (pick_index bl) as [i|] eqn:E; [|contradiction].
+  change (seq 0 1) with [0%nat]. cbn [map In]. change (N.of_nat 0) with 0%N. rewrite N.add_0_r.
+  intros [<-|[]]. now apply pick_index_free.
+Qed.
+
+(* var_n and {value}_{target}: the names in use are not consulted at all *)
+Definition var_names (used : list ident) (k : nat) : list ident := map var_name (seq 0 k).
+Theorem var_names_refuted : exists used k n, In n (var_names used k) /\ In n used.
+Proof. exists [var_name 0], 1%nat, (var_name 0). split; now left. Qed.
+Definition keys_items_names (used : list ident) (value target : text) : ident := keys_items_name value target.
+Theorem keys_items_refuted : exists used value target, In (keys_items_names used value target) used.
+Proof. exists [keys_items_name [100]%N [107]%N], [100]%N, [107]%N. now left. Qed.
